@@ -288,3 +288,66 @@ def r9(ctx):
            "byte, recv_data_frame blocks inside recv until the whole frame (or message) has arrived -- a peer that sends part of a frame (or a non-final fragment) and then "
            "falls silent is never reported, check() never runs again and run_forever never returns", unbounded[0].loc if unbounded else loc)
 
+
+
+@rule("R-C16-10", min_instances=2, title="the loop's wake-up cadence belongs to the run: on a WebSocketApp object that is run a second time, the built-in dispatcher waits at most this run's ping_timeout between checks (nothing of the previous run's dispatcher is kept)")
+def r10(ctx):
+    """Two consecutive run_forever() calls on one object, the real create_dispatcher and Dispatcher.read; each run is ended by the
+    application's close() arriving while the loop waits for readiness (one deterministic path per run)."""
+    idx = ctx.index
+    loc = idx.loc(idx.func(f"{APP}.create_dispatcher").node)
+
+    def ws_ctor(I, run, args, kwargs, node):
+        run.effect("WebSocket()", (), node=node)
+        return new_obj(run, None, "appsock", sock=Sym("rawsock", "obj"), connected=FALSE)
+
+    def connect(I, run, args, kwargs, node):
+        if args and isinstance(args[0], Ref):
+            run.cell(args[0]).fields["connected"] = TRUE
+        return NONE
+
+    def select(I, run, args, kwargs, node):
+        run.effect("select", tuple(args[1:]) if args and isinstance(args[0], Ref) else tuple(args), kwargs, node=node)
+        app = next(a for a, c in run.heap.items() if getattr(c, "label", "") == "app")
+        I.call(run, I.getattr(run, Ref(app), "close", None), [], {}, node)   # the application closes while the loop waits
+        return Tup(())
+
+    st = sock_stubs(extra={
+        "_core:WebSocket": ws_ctor, "appsock.connect": connect, "_url:parse_url": lambda I, run, a, k, n: Tup((Sym("h"), C(80), Sym("r"), FALSE)),
+        "_socket:getdefaulttimeout": lambda *a: NONE, "selectors.DefaultSelector": lambda I, run, a, k, n: new_obj(run, None, "sel"),
+        "sel.register": lambda *a: NONE, "sel.close": lambda *a: NONE, "sel.select": select, "sel.unregister": lambda *a: NONE,
+        "threading.Event": lambda I, run, a, k, n: new_obj(run, None, "stopev"), "threading.Thread": lambda I, run, a, k, n: new_obj(run, None, "pingthread"),
+        "stopev.set": lambda *a: NONE, "stopev.wait": lambda *a: TRUE, "pingthread.is_alive": lambda *a: FALSE, "pingthread.start": lambda *a: NONE, "pingthread.join": lambda *a: NONE,
+    })
+    for label, first, second in (("no-keepalive then timeout 5", {}, {"ping_interval": C(20), "ping_timeout": C(5)}),
+                                 ("timeout 30 then timeout 5", {"ping_interval": C(60), "ping_timeout": C(30)}, {"ping_interval": C(20), "ping_timeout": C(5)})):
+        I = Interp(idx, Config(stubs=st, loop_unroll=3))
+
+        def body(run, first=first, second=second):
+            app = mk_app(I, run)
+            I.call(run, I.getattr(run, app, "run_forever", None), [], dict(first), None)
+            run.effect("--second run")
+            return I.call(run, I.getattr(run, app, "run_forever", None), [], dict(second), None)
+
+        outs = [o for o in ctx.count_paths(I.explore(body)) if o.kind != "cutoff"]
+        bad = None
+        n = 0
+        for o in outs:
+            names = [e.name for e in o.effects]
+            if "--second run" not in names:
+                continue
+            k = names.index("--second run")
+            waits = [e for e in o.effects[k:] if e.name == "select"]
+            if o.kind != "return" or not waits:
+                bad = bad or (f"second run ends as {o.kind} {o.exc_class or ''} after {len(waits)} waits", o)
+                continue
+            n += 1
+            for w in waits:
+                t = I.resolve(o.run, w.args[0]) if w.args else w.kwargs.get("timeout")
+                if t != C(5):
+                    bad = bad or (f"the second run (ping_timeout=5) waits for readiness with timeout {t!r}", o)
+        if n == 0 and bad is None:
+            raise AnalysisError(f"{label}: no path completes both runs")
+        ctx.ob(f"{RF}:second-run-cadence:{label}", bad is None, f"{n} paths: the second run waits at most its own ping_timeout" if bad is None else
+               f"{bad[0]}: check() is only reached when that wait ends, so with the stale cadence a ping that goes unanswered is reported one old timeout late (or never, on a silent peer)",
+               loc, {"path": path_text(bad[1], 14)} if bad else None)
